@@ -19,7 +19,7 @@ MAP = {  # sha: (defect id, properties)
  "a3cecee": ("D54", ["C04", "C34"]), "53a5e12": ("D50", ["C33"]), "85117fd": ("D57", ["C04", "C34"]), "643396b": ("D31b", ["C12", "C23"]),
  "29b0667": ("D59", ["C02"]), "8851950": ("D56", ["C04", "C34"]), "b67d291": ("D27", ["C14"]), "448fb0c": ("D53", ["C04", "C34"]),
  "e25c64a": ("D60", ["C33", "C35"]), "3b6ea2e": ("D65", ["C03", "C05", "C04"]), "fdfd074": ("D20", ["C03"]), "a50312a": ("D64", ["C04", "C34"]),
- "73184d8": ("D66", ["C03", "C04"]), "8882383": ("D67", ["C01"]), "0cb8741": ("D24", ["C01"]), "eacb987": ("D68", ["C03", "C01"]), "8e0e420": ("D70", ["C12", "C13"]), "6577a34": ("D73", ["C02"]), "0d4ebe0": ("D74", ["C05"]), "9e990e2": ("D75", ["C02", "C05"]), "33617bc": ("D79", ["C03", "C04"]), "007e281": ("D76", ["C04"]), "31c1353": ("D77", ["C04"]), "8a8263e": ("D80", ["C04", "C03"]), "f10cb88": ("D81", ["C21", "C03"]), "8526476": ("D82", ["C04", "C21"]), "2cad6c7": ("D83", ["C04", "C03"]), "38fb6e7": ("D84", ["C04", "C34"]), "7fe8312": ("D85", ["C31", "C29"]), "cab8299": ("D86", ["C22", "C04"]), "79c3120": ("D87", ["C18", "C01"]), "3422f1d": ("D91", ["C02", "C03"]), "3cc222c": ("D88", ["C26", "C01"]), "e7444a7": ("D89", ["C09", "C01"]), "2fca043": ("D92", ["C32"]), "bc98586": ("D90", ["C03", "C04"]), "567a3fd": ("D93", ["C33"]), "759c886": ("D94", ["C04", "C21"]), "d9b5b0e": ("D95", ["C36"]), "e292b84": ("D96", ["C12", "C01"]), "f04535c": ("D97", ["C14", "C01"]), "0c43abd": ("D21", ["C02", "C01"]), "bbcc736": ("D99", ["C03", "C04"]), "efe8984": ("D98", ["C22", "C01"]), "97d7808": ("D23", ["C09", "C06"]), "ae0a5b4": ("D103", ["C14", "C01"]), "c7017fe": ("D102", ["C18"]), "2739cd9": ("D101", ["C21"]), "32c59ef": ("D100", ["C22"]), "acde027": ("D104", ["C36"]), "f2c5040": ("D105", ["C36"]), "f9af9cf": ("D106", ["C35", "C33"]), "2040d20": ("D107", ["C02", "C01"]), "84d8afa": ("D109", ["C32"]), "1a865aa": ("D110", ["C04", "C34"]), "0832a58": ("D111", ["C31", "C33", "C04"]), "015809f": ("D108", ["C21"]), "0d66a03": ("D112", ["C04", "C03"]), "39422dd": ("D113", ["C07"]), "cdc1d9e": ("D114", ["C04"]), "2567d92": ("D71", ["C23", "C02"]), "b8f3207": ("D72", ["C19", "C01"]), "3dc9f66": ("D72b", ["C22", "C01"]), "3dd8862": ("D61", ["C22", "C01"]), "ddfdc59": ("D63", ["C02"]),
+ "73184d8": ("D66", ["C03", "C04"]), "8882383": ("D67", ["C01"]), "0cb8741": ("D24", ["C01"]), "eacb987": ("D68", ["C03", "C01"]), "8e0e420": ("D70", ["C12", "C13"]), "6577a34": ("D73", ["C02"]), "0d4ebe0": ("D74", ["C05"]), "9e990e2": ("D75", ["C02", "C05"]), "33617bc": ("D79", ["C03", "C04"]), "007e281": ("D76", ["C04"]), "31c1353": ("D77", ["C04"]), "8a8263e": ("D80", ["C04", "C03"]), "f10cb88": ("D81", ["C21", "C03"]), "8526476": ("D82", ["C04", "C21"]), "2cad6c7": ("D83", ["C04", "C03"]), "38fb6e7": ("D84", ["C04", "C34"]), "7fe8312": ("D85", ["C31", "C29"]), "cab8299": ("D86", ["C22", "C04"]), "79c3120": ("D87", ["C18", "C01"]), "3422f1d": ("D91", ["C02", "C03"]), "3cc222c": ("D88", ["C26", "C01"]), "e7444a7": ("D89", ["C09", "C01"]), "2fca043": ("D92", ["C32"]), "bc98586": ("D90", ["C03", "C04"]), "567a3fd": ("D93", ["C33"]), "759c886": ("D94", ["C04", "C21"]), "d9b5b0e": ("D95", ["C36"]), "e292b84": ("D96", ["C12", "C01"]), "f04535c": ("D97", ["C14", "C01"]), "0c43abd": ("D21", ["C02", "C01"]), "bbcc736": ("D99", ["C03", "C04"]), "efe8984": ("D98", ["C22", "C01"]), "97d7808": ("D23", ["C09", "C06"]), "ae0a5b4": ("D103", ["C14", "C01"]), "c7017fe": ("D102", ["C18"]), "2739cd9": ("D101", ["C21"]), "32c59ef": ("D100", ["C22"]), "acde027": ("D104", ["C36"]), "f2c5040": ("D105", ["C36"]), "f9af9cf": ("D106", ["C35", "C33"]), "2040d20": ("D107", ["C02", "C01"]), "84d8afa": ("D109", ["C32"]), "1a865aa": ("D110", ["C04", "C34"]), "0832a58": ("D111", ["C31", "C33", "C04"]), "015809f": ("D108", ["C21"]), "0d66a03": ("D112", ["C04", "C03"]), "39422dd": ("D113", ["C07"]), "cdc1d9e": ("D114", ["C04"]), "a317e6d": ("D115", ["C04"]), "2567d92": ("D71", ["C23", "C02"]), "b8f3207": ("D72", ["C19", "C01"]), "3dc9f66": ("D72b", ["C22", "C01"]), "3dd8862": ("D61", ["C22", "C01"]), "ddfdc59": ("D63", ["C02"]),
 }
 log = subprocess.run(["git", "-C", "/repo", "log", "--format=%h\t%s", "--grep", "^fix:"], capture_output=True, text=True).stdout
 path = os.path.join(ROOT, "known_findings.json")
